@@ -151,7 +151,7 @@ def load_known():
         return json.load(f)
 
 
-def run_property(prop, tier, facts_path=None, repo=None, quiet=False, write_evidence=True):
+def run_property(prop, tier, facts_path=None, repo=None, quiet=False, write_evidence=True, extra_cov=None):
     t0 = time.time()
     mod = importlib.import_module(prop.lower())
     configs = [("default", ())]
@@ -211,14 +211,14 @@ def run_property(prop, tier, facts_path=None, repo=None, quiet=False, write_evid
                 print("  violated %s @ %s\n     %s\n     %s" % (o["key"], o["where"], o["desc"], o["detail"]))
             print("VIOLATION property=%s replay=%s" % (prop, replay))
     if write_evidence:
-        write_ev(prop, tier, mod, all_obl, listed, new, analysed_fns, nfns, nnodes, notes, wall, fixture_results, configs)
+        write_ev(prop, tier, mod, all_obl, listed, new, analysed_fns, nfns, nnodes, notes, wall, fixture_results, configs, extra_cov)
     if not quiet:
         print("%s: %d obligations, %d discharged, %d known finding(s), %d new violation(s) [%.1fs]" % (
             prop, len(all_obl), len([o for o in all_obl if o["status"] == "ok"]), len(listed), len(new), wall))
     return all_obl, new, listed
 
 
-def write_ev(prop, tier, mod, obl, listed, new, fns, nfns, nnodes, notes, wall, fixture_results, configs):
+def write_ev(prop, tier, mod, obl, listed, new, fns, nfns, nnodes, notes, wall, fixture_results, configs, extra_cov=None):
     level = getattr(mod, "LEVEL", "other")
     ok = [o for o in obl if o["status"] == "ok"]
     rules = sorted({o["rule"] for o in obl})
@@ -253,6 +253,8 @@ def write_ev(prop, tier, mod, obl, listed, new, fns, nfns, nnodes, notes, wall, 
         "notes": notes,
         "obligation_list": [{"key": o["key"], "status": o["status"], "where": o["where"], "config": o["config"]} for o in obl],
     }
+    if extra_cov:
+        cov.update(extra_cov)
     ev = {
         "property_id": prop,
         "tier": tier,
@@ -278,12 +280,16 @@ def main(argv):
     ap.add_argument("--facts", default=None, help="reuse an existing fact file (debugging only)")
     ap.add_argument("--repo", default=None)
     a = ap.parse_args(argv)
-    obl, new, listed = run_property(a.prop.upper(), a.tier, a.facts, a.repo)
+    extra = None
     if a.tier == "thorough":
-        mod = importlib.import_module(a.prop.lower())
         import mutants
-        missed = mutants.run_corpus(a.prop.upper())
+        res = mutants.run_corpus(a.prop.upper())
+        missed = [r["name"] for r in res if r["missed"]]
+        extra = {"mutation_corpus": [{"mutant": r["name"], "status": r["status"][:120], "caught_by": r["caught"], "missed": r["missed"]} for r in res],
+                 "mutants_run": len(res), "mutants_caught": len([r for r in res if r["caught"] and not r["missed"]])}
+        for r in res:
+            print("mutant %-40s %s" % (r["name"], "caught" if (r["caught"] and not r["missed"]) else r["status"] if r["status"] != "ok" else "MISSED"))
         if missed:
-            for m in missed:
-                print("MUTANT-MISSED %s" % m)
+            print("CHECKER-WEAKNESS: mutants not caught by %s: %s" % (a.prop.upper(), missed))
+    obl, new, listed = run_property(a.prop.upper(), a.tier, a.facts, a.repo, extra_cov=extra)
     return 1 if new else 0
